@@ -83,13 +83,31 @@ def c06(report, rng, tier, findings):
         nv = rng.choice((1, 1, 2))
         cfg = gen.Cfg(n_vars=(nv, nv), n_objs=(1, 4), depth=2, select_all=1.0, empty_domain=0.05, quant='the')
         case = gen.gen_case(rng, cfg, f'c{tries}')
+        if nv == 1 and rng.random() < 0.3:
+            # the description given in predicate form, the quantifier applied straight to it: the(T(From(d), f=v, ...))
+            vid, cls, raw = case['vars'][0]
+            kw, eqs = [], []
+            for f in rng.sample(['a', 'b'], rng.randint(0, 2)):
+                lit = ('i', rng.randint(0, 2))
+                kw.append((f, ('lit', lit)))
+                eqs.append(('cmp', 'eq', ('attr', f, ('var', vid)), ('lit', lit)))
+            explicit = dict(case)
+            explicit['sel'] = [('var', vid)]
+            explicit['cond'] = eqs or None
+            case = dict(explicit)
+            case['cond'] = None
+            case['pform'] = {vid: {'pos': [], 'kw': kw}}
+            case['direct'] = True
+            case['explicit'] = explicit
         try:
-            k = len(surface.Oracle(case).rows())
+            k = len(surface.Oracle(case.get('explicit', case)).rows())
         except Exception:
             continue
         b = min(k, 2)
         if len(buckets[b]) < n // 3:
             buckets[b].append(case)
+            if case.get('direct'):
+                report.count('quantifier_applied_to_a_predicate_form_term')
     cases = buckets[0] + buckets[1] + buckets[2]
     for b, l in buckets.items():
         report.count(f'solutions_{b}{"+" if b == 2 else ""}', len(l))
@@ -1074,6 +1092,11 @@ def c13(report, rng, tier, findings):
         case['pform'] = pform
         case['explicit'] = explicit
         case['nested'] = nested
+        if len(base['vars']) == 1 and not extra and base['sel'] == [('var', base['vars'][0][0])] and rng.random() < 0.5:
+            case['direct'] = True               # an(T(From(d), ...)) rather than an(entity(T(From(d), ...)))
+            vid0 = base['vars'][0][0]
+            explicit['cond'] = (list(eq_by_var[vid0][2:]) if vid0 in eq_by_var else None)    # the term IS the query
+            report.count('quantifier_applied_to_the_term')
         cases.append(case)
     report.rule = ("queries whose variables are declared in predicate form T(From(d), ...) over MIXED-TYPE domains of a generated "
                    "hierarchy (the variable's class is a random class; subclasses must be kept, other classes dropped), with 0-2 "
